@@ -153,7 +153,7 @@ def analytic_check(typ, pos, mat, size, pnt, vec, x):
 
 
 def gg_lit(gg):
-    return "None" if gg is None else "(Some %s)" % F.zlist(list(gg))
+    return "(@None (list Z))" if gg is None else "(Some %s)" % F.zlist(list(gg))
 
 
 def run(ctx):
